@@ -457,3 +457,101 @@ func guardedByKeyword(b *ssa.BasicBlock, kw string) bool {
 	}
 	return false
 }
+
+// ---------------------------------------------------------------------------------------------
+// The driver's "user is waiting for a move" flag, independent of its representation: an atomic.Bool
+// (armed = true) or an atomic integer holding the id of the search waited for (armed = non-zero).
+
+func isAtomicMethod(f *ssa.Function, name string) bool {
+	if f == nil || f.Pkg == nil || f.Pkg.Pkg.Path() != "sync/atomic" || f.Signature.Recv() == nil {
+		return false
+	}
+	return f.Name() == name
+}
+
+func isZeroSSA(v ssa.Value) bool {
+	c, ok := stripConv(v).(*ssa.Const)
+	if !ok {
+		return false
+	}
+	if c.Value == nil {
+		return true
+	}
+	switch c.Value.Kind() {
+	case constant.Bool:
+		return !constant.BoolVal(c.Value)
+	case constant.Int:
+		x, ok := constant.Int64Val(c.Value)
+		return ok && x == 0
+	}
+	return false
+}
+
+// flagField: the atomic field of the driver that the completion function wins by compare-and-swap.
+func (d *driverModel) flagField() *types.Var {
+	for _, b := range d.searchCompleted.Blocks {
+		for _, ins := range b.Instrs {
+			if call, ok := ins.(ssa.CallInstruction); ok && isAtomicMethod(call.Common().StaticCallee(), "CompareAndSwap") {
+				if f := fieldOfValue(call.Common().Args[0]); f != nil {
+					return f
+				}
+			}
+		}
+	}
+	return nil
+}
+
+// flagOp classifies an instruction as an operation on the flag: "clear" (store/swap of the zero value),
+// "arm" (store of anything else), "win" (compare-and-swap to the zero value), "load".
+func (d *driverModel) flagOp(ins ssa.Instruction) string {
+	call, ok := ins.(ssa.CallInstruction)
+	if !ok {
+		return ""
+	}
+	f := call.Common().StaticCallee()
+	if f == nil || f.Pkg == nil || f.Pkg.Pkg.Path() != "sync/atomic" || len(call.Common().Args) == 0 {
+		return ""
+	}
+	ff := d.flagField()
+	if ff == nil || fieldOfValue(call.Common().Args[0]) != ff {
+		return ""
+	}
+	a := call.Common().Args
+	switch f.Name() {
+	case "Store", "Swap":
+		if len(a) >= 2 && isZeroSSA(a[1]) {
+			return "clear"
+		}
+		return "arm"
+	case "CompareAndSwap":
+		if len(a) >= 3 && isZeroSSA(a[2]) && !isZeroSSA(a[1]) {
+			return "win"
+		}
+	case "Load":
+		return "load"
+	}
+	return ""
+}
+
+// armsFlag: the instruction arms the flag, directly or by calling a helper of the driver package that does.
+func (d *driverModel) armsFlag(ins ssa.Instruction) bool {
+	if d.flagOp(ins) == "arm" {
+		return true
+	}
+	call, ok := ins.(ssa.CallInstruction)
+	if !ok {
+		return false
+	}
+	f := call.Common().StaticCallee()
+	if f == nil || f.Blocks == nil || f.Pkg != d.process.Pkg || f == d.process || f == d.searchCompleted || f == d.ensureInactive {
+		return false
+	}
+	for _, b := range f.Blocks {
+		for _, in2 := range b.Instrs {
+			if d.flagOp(in2) == "arm" {
+				return true
+			}
+		}
+	}
+	return false
+}
